@@ -167,7 +167,8 @@ pub fn rec_observe(args: &Args) {
     let mut r = Rng::new(seed ^ 0xC14);
     let mut out = Out::create(args.s("out"));
     let eps: Vec<String> = (1..=6).map(|i| format!("[fe80::{}]:5683", i)).collect();
-    let toks: Vec<Vec<u8>> = vec![vec![], vec![1], vec![0xAA, 0xBB, 0xCC, 0xDD], vec![1, 2, 3, 4, 5, 6, 7, 8]];
+    // tokens are byte strings: [] / [0] / [0, 0] and [1] / [0, 1] are different tokens
+    let toks: Vec<Vec<u8>> = vec![vec![], vec![1], vec![0xAA, 0xBB, 0xCC, 0xDD], vec![1, 2, 3, 4, 5, 6, 7, 8], vec![0], vec![0, 0], vec![0, 1], vec![0; 8]];
     // path = (segments, key string as get_path() yields it)
     let mut paths: Vec<(Vec<Vec<u8>>, String)> = vec![
         (vec![b"temp".to_vec()], String::new()),
